@@ -59,6 +59,7 @@ structure Ctx where
   saveCg : Val       -- command_giver
   saveLd : Int := 0  -- num_objects_this_thread (load_object nesting guard)
   saveRd : Val := 0  -- restrict_destruct
+  saveVerb : Val := 0 -- last_verb (what query_verb() yields)
   deriving DecidableEq, Repr, Inhabited
 
 /-- catch_value / the value a catch expression yields -/
@@ -92,6 +93,9 @@ structure M where
   out : List Ev := []            -- newest first
   maxDepth : Nat := 50           -- __MAX_CALL_DEPTH__ (rc.cpp default; `maxdepth <n>` lowers it per case)
   staleCatch : Bool := false     -- what a read of the (stale) frame above csp yields for "is it FRAME_CATCH"
+  lastVerb : Val := 0            -- last_verb (simulate.c): the verb of the command being executed, 0 = none
+  hbCur : Val := 0               -- current_heart_beat (backend.c): the object whose heart_beat() is running, 0 = none
+  hbOff : List Val := []         -- objects whose heart beat error_handler has switched off (set_heart_beat (ob, 0)), newest first
   deriving Repr, Inhabited
 
 inductive Res
@@ -141,17 +145,17 @@ def saveContext (m : M) : Option (Ctx × M) :=
   if m.cs.length ≥ m.maxDepth then none
   else
     let e : Ctx := { saveSp := m.vs.length, saveCsp := m.cs.length, saveCg := m.cg,
-                     saveLd := m.loadDepth, saveRd := m.restrictDestruct }
+                     saveLd := m.loadDepth, saveRd := m.restrictDestruct, saveVerb := m.lastVerb }
     some (e, { m with ctxs := e :: m.ctxs })
 
 /-- pop_context: unlink (`current_error_context = econ->save_context`, here the chain the construct remembered
     when it saved) and clear the error state -/
 def popContext (link : List Ctx) (m : M) : M := { m with ctxs := link, errState := 0 }
 
-/-- restore_context, exactly as coded: command_giver and the two guards (restore_object_limits); if csp > save_csp then csp = save_csp + 1 and ONE
+/-- restore_context, exactly as coded: command_giver, the two guards (restore_object_limits) and last_verb; if csp > save_csp then csp = save_csp + 1 and ONE
     pop_control_stack; then pop_n_elems (sp - save_sp) — a negative difference converts to a huge size_t -/
 def restoreContext (e : Ctx) (m : M) : Res :=
-  let m1 := { m with cg := e.saveCg, loadDepth := e.saveLd, restrictDestruct := e.saveRd }
+  let m1 := { m with cg := e.saveCg, loadDepth := e.saveLd, restrictDestruct := e.saveRd, lastVerb := e.saveVerb }
   let m2? : Option M :=
     if m1.cs.length > e.saveCsp then
       popFrame { m1 with cs := m1.cs.drop (m1.cs.length - (e.saveCsp + 1)) }
@@ -202,6 +206,11 @@ def longjmp (m : M) : Res :=
   | [] => .crash "fatal: failed longjmp() or no error context for error" m
   | _ :: _ => .err m
 
+/-- error_handler, uncaught path, after the mudlib handler: `if (current_heart_beat) { set_heart_beat (current_heart_beat, 0);
+    current_heart_beat = 0; }` -/
+def hbOffStep (m : M) : M :=
+  if m.hbCur != 0 then { m with hbOff := m.hbCur :: m.hbOff, hbCur := 0 } else m
+
 /-- error_handler entered while the mudlib error handler is already running (second level): never calls the
     mudlib handler again -/
 def raiseInner (msg : String) (m0 : M) : Res :=
@@ -211,7 +220,7 @@ def raiseInner (msg : String) (m0 : M) : Res :=
     longjmp { m with inMudlibHandler := false, catchValue := .msg msg }
   else if m.inError then longjmp m
   else
-    longjmp { m with inError := false, inMudlibHandler := false }
+    longjmp (hbOffStep { m with inError := false, inMudlibHandler := false })
 
 def masterVal : Val := 1
 
@@ -256,10 +265,10 @@ def raise (msg : String) (m0 : M) : Res :=
       | r => r
   else if m.inError then longjmp m
   else if m.inMudlibHandler then
-    longjmp { m with inError := false, inMudlibHandler := false }
+    longjmp (hbOffStep { m with inError := false, inMudlibHandler := false })
   else
     match runHandler msg false { m with inMudlibHandler := true, inError := false } with
-    | .ok m' => longjmp { m' with inError := false, inMudlibHandler := false }
+    | .ok m' => longjmp (hbOffStep { m' with inError := false, inMudlibHandler := false })
     | r => r
 
 /-- throw_error: only a catch context accepts a thrown value -/
@@ -310,6 +319,10 @@ inductive Op
   | raiseLimit                                  -- eval cost exhausted: sets ES_MAX_EVAL_COST, raises
   | load (body : Prog)                          -- load_object: ++num_objects_this_thread ... --
   | dhook (v : Val) (body : Prog)               -- destruct_object: restrict_destruct = v around the move_or_destruct apply
+  | verb (v : Val) (body : Prog)                -- user_parser (simulate.c): `last_verb = …` around the call of a verb function,
+                                                -- `last_verb = 0` after it returned (normal path only)
+  | heartBeat (ob cgv : Val) (body : Prog)      -- call_heart_beat (backend.c), one object: current_heart_beat = ob; command_giver = ob
+                                                -- (or 0 when it has no commands enabled); call_function (heart_beat); clears
 inductive Prog
   | nil
   | cons (o : Op) (p : Prog)
@@ -502,6 +515,19 @@ def dhookFinish (v : Val) (r : Res) : Res :=
   | .ok m1 => .ok { m1 with restrictDestruct := v }
   | r => r
 
+/-- user_parser after the verb function returned: `last_verb = 0` -/
+def verbFinish (r : Res) : Res :=
+  match r with
+  | .ok m1 => .ok { m1 with lastVerb := 0 }
+  | r => r
+
+/-- call_heart_beat after `call_function` returned: `command_giver = 0; current_object = 0;` and, after the loop,
+    `current_prog = 0; current_heart_beat = 0;` (normal path only) -/
+def hbFinish (r : Res) : Res :=
+  match r with
+  | .ok m1 => .ok { m1 with cg := 0, r := { m1.r with co := 0, prog := 0 }, hbCur := 0 }
+  | r => r
+
 /-- the context safe_apply works with: saved with the arguments on the stack, then (fix) `save_sp = sp - num_arg` -/
 def safeCtx (nargs : Nat) (econ0 : Ctx) : Ctx := { econ0 with saveSp := econ0.saveSp - nargs }
 
@@ -590,6 +616,15 @@ def execCore : Op → M → Res
     raise "*Too long evaluation. Execution aborted." { m with errState := m.errState ||| Gen.C05.esMaxEvalCost }
   | .load body, m => loadFinish (exec body { m with loadDepth := m.loadDepth + 1 })
   | .dhook v body, m => dhookFinish m.restrictDestruct (exec body { m with restrictDestruct := v })
+  | .verb v body, m => verbFinish (exec body { m with lastVerb := v })
+  | .heartBeat ob cgv body, m =>
+    -- call_heart_beat: the registers are set BEFORE the frame is pushed by call_function (push_control_stack, FRAME_FUNCTION |
+    -- FRAME_OB_CHANGE, no arguments); the value heart_beat() returns is popped
+    match depthCheck (.other ob) { m with hbCur := ob, cg := cgv } with
+    | some mFull =>
+      raise "***Too deep recursion." { mFull with errState := mFull.errState ||| Gen.C05.esStackFull }
+    | none =>
+      hbFinish (callFinish (.other ob) 0 (thenTick (exec body (enterCall (.other ob) 0 { m with hbCur := ob, cg := cgv }))))
 end
 
 /-! ### the driver-level evaluation (what backend()/call_out()/the harness do around an apply) -/
@@ -598,6 +633,7 @@ structure TopResult where
   before : M
   after : M
   result : String          -- "done 1" | "fault-top" | "crash ..."
+  loop : Option M := none  -- backend(): the state at the poll point of the next cycle (context still linked)
   deriving Repr, Inhabited
 
 /-- the C side of a driver-level evaluation after its `save_context`: `setjmp`; apply ob->fn() (apply_low pushes
@@ -641,6 +677,30 @@ def runDriver (p : Prog) (k : Nat) (m0 : M) : TopResult :=
     let wasErr := match r with | .err _ => true | _ => false
     match topFinish econ m0.ctxs r with
     | .ok m5 => { before := m0, after := { m5 with fault := 0 }, result := if wasErr then "fault-top" else "done co" }
+    | .err m5 => { before := m0, after := m5, result := "crash longjmp" }
+    | .crash why m5 => { before := m0, after := m5, result := "crash " ++ why }
+
+/-- clear_state (backend.c) at the start of backend(): registers zeroed, both stacks reset (reset_interpreter) -/
+def clearState (m : M) : M := { m with cg := 0, r := {}, vs := [], cs := [] }
+
+/-- `backend()` (src/backend.c) run for ONE scripted cycle: clear_state; save_context (once, for the whole loop);
+    `if (setjmp (econ.context)) restore_context (&econ);` — an error in the cycle comes back here and the loop goes on;
+    the cycle (`p`: process_user_command / call_heart_beat, C code calling into LPC); the next cycle has nothing to do and
+    the loop is left; pop_context.  `loop` is the state at the poll point of that next cycle. -/
+def runBackend (p : Prog) (k : Nat) (m00 : M) : TopResult :=
+  let m0 := clearState { m00 with out := [], shape := none, fault := 0 }
+  match saveContext m0 with
+  | none => { before := m0, after := m0, result := "too-deep" }
+  | some (econ, m1) =>
+    let r := exec p { m1 with fault := k }
+    let wasErr := match r with | .err _ => true | _ => false
+    let atPoll : Res := match r with
+      | .err m4 => restoreContext econ m4
+      | r => r
+    match atPoll with
+    | .ok m5 =>
+      let m6 := { m5 with fault := 0 }
+      { before := m0, after := popContext m0.ctxs m6, result := if wasErr then "fault-top" else "done be", loop := some m6 }
     | .err m5 => { before := m0, after := m5, result := "crash longjmp" }
     | .crash why m5 => { before := m0, after := m5, result := "crash " ++ why }
 
